@@ -1021,6 +1021,8 @@ pub enum Class {
     Ext,
     Window,
     Pair,
+    /// the same field of two or three consecutive records set to the same boundary value
+    Stride,
     Text,
     /// C08 part (ii): builder values (the "seed" is the format, the case index the program)
     Builder,
@@ -1036,6 +1038,7 @@ impl Class {
             Class::Ext => "ext",
             Class::Window => "window",
             Class::Pair => "pair",
+            Class::Stride => "stride",
             Class::Text => "text",
             Class::Builder => "builder",
             Class::Fixture => "fixture",
@@ -1048,6 +1051,7 @@ impl Class {
             "ext" => Class::Ext,
             "window" => Class::Window,
             "pair" => Class::Pair,
+            "stride" => Class::Stride,
             "builder" => Class::Builder,
             "fixture" => Class::Fixture,
             _ => Class::Text,
@@ -1215,6 +1219,57 @@ fn pair_windows(n: usize) -> Vec<(usize, Vec<u8>)> {
     out
 }
 
+/// Positions of the multi-byte character substitution: every byte of a text seed up to 4 KiB, a
+/// grid of about 1024 positions above.
+fn mb_positions(n: usize) -> Vec<usize> {
+    let step = if n <= 4096 { 1 } else { n / 1024 + 1 };
+    (0..n).step_by(step).collect()
+}
+
+/// Stride cases (2–3 coordinated deviations): a window of width 2 or 4 at offset `o` < 64 and again
+/// at `o + s` (and `o + 2s`) for record strides `s`, all set to the same boundary value, both byte
+/// orders. Sums and products over a field of every record (total sizes, pre-allocations) only go
+/// wrong when more than one record lies.
+const STRIDES: [usize; 12] = [4, 6, 8, 9, 12, 16, 18, 20, 24, 25, 32, 40];
+
+fn stride_cases(n: usize, thorough: bool) -> Vec<(Vec<usize>, Vec<u8>)> {
+    let mut out = Vec::new();
+    for w in [2usize, 4] {
+        let bits = w * 8;
+        let max: u64 = (1u64 << bits) - 1;
+        let mut vals: Vec<Vec<u8>> = Vec::new();
+        for v in [max, (max >> 1) + 1, (max >> 2) + 1] {
+            let be: Vec<u8> = (0..w).rev().map(|i| (v >> (8 * i)) as u8).collect();
+            let le: Vec<u8> = be.iter().rev().copied().collect();
+            vals.push(be.clone());
+            if le != be {
+                vals.push(le);
+            }
+        }
+        for s in STRIDES {
+            if s < w {
+                continue;
+            }
+            for o in 0..64usize {
+                for r in [2usize, 3] {
+                    // quick tier: pairs only
+                    if r == 3 && !thorough {
+                        continue;
+                    }
+                    let offs: Vec<usize> = (0..r).map(|i| o + i * s).collect();
+                    if offs[r - 1] + w > n {
+                        continue;
+                    }
+                    for v in &vals {
+                        out.push((offs.clone(), v.clone()));
+                    }
+                }
+            }
+        }
+    }
+    out
+}
+
 fn class_count(class: Class, seed: &[u8], full: bool, thorough: bool, c08: bool, text: Option<(&'static [&'static str], usize, usize)>) -> u64 {
     let n = seed.len();
     match class {
@@ -1225,11 +1280,12 @@ fn class_count(class: Class, seed: &[u8], full: bool, thorough: bool, c08: bool,
         Class::Trunc => trunc_lengths(n, thorough).len() as u64,
         Class::Ext => 6,
         // text targets: in addition every byte replaced by a 2-, 3- and 4-byte UTF-8 character
-        Class::Window => windows(n).len() as u64 + if text.is_some() { 3 * n as u64 } else { 0 },
+        Class::Window => windows(n).len() as u64 + if text.is_some() { 3 * mb_positions(n).len() as u64 } else { 0 },
         Class::Pair => {
             let k = pair_windows(n).len() as u64;
             k * k.saturating_sub(1) / 2
         }
+        Class::Stride => stride_cases(n, thorough).len() as u64,
         Class::Text => match text {
             Some((tok, lq, lt)) => {
                 let l = if thorough { lt } else { lq };
@@ -1339,7 +1395,7 @@ fn for_each_case(class: Class, seed: &[u8], full: bool, thorough: bool, c08: boo
             if text.is_some() {
                 // a valid multi-byte character where the grammar expects ASCII: scanners that
                 // advance byte-wise end up inside the character
-                for p in 0..n {
+                for p in mb_positions(n) {
                     for ch in ["\u{e9}", "\u{20ac}", "\u{1d11e}"] {
                         if idx >= hi {
                             return;
@@ -1354,6 +1410,24 @@ fn for_each_case(class: Class, seed: &[u8], full: bool, thorough: bool, c08: boo
                         idx += 1;
                     }
                 }
+            }
+        }
+        Class::Stride => {
+            for (offs, val) in stride_cases(n, thorough) {
+                if idx >= hi {
+                    return;
+                }
+                if idx >= lo {
+                    let w = val.len();
+                    for o in &offs {
+                        buf[*o..*o + w].copy_from_slice(&val);
+                    }
+                    f(idx, &buf);
+                    for o in &offs {
+                        buf[*o..*o + w].copy_from_slice(&seed[*o..*o + w]);
+                    }
+                }
+                idx += 1;
             }
         }
         Class::Pair => {
@@ -2632,7 +2706,7 @@ fn plan(tier: Tier, mode: &str, only_fix: bool) -> (Vec<Value>, u64, Vec<Value>)
         for (si, (sname, seed)) in seeds.iter().enumerate() {
             // quick tier: large fixtures only get the header/footer classes
             let big = seed.len() > 8192;
-            let mut classes = vec![Class::Trunc, Class::Ext, Class::Window];
+            let mut classes = vec![Class::Trunc, Class::Ext, Class::Window, Class::Stride];
             if !big || thorough {
                 classes.insert(0, Class::Subst);
             }
@@ -2641,7 +2715,12 @@ fn plan(tier: Tier, mode: &str, only_fix: bool) -> (Vec<Value>, u64, Vec<Value>)
             }
             if big && !thorough && seed.len() > 60_000 {
                 // very large fixtures: windows + extensions only in the quick tier
-                classes.retain(|c| matches!(c, Class::Window | Class::Ext));
+                classes.retain(|c| matches!(c, Class::Window | Class::Ext | Class::Stride));
+            }
+            if c08 && !thorough {
+                // C08 quick: the coordinated-deviation class is left to the thorough tier (two parses and
+                // two builds per accepted case)
+                classes.retain(|c| *c != Class::Stride);
             }
             let full = full_subst(sname, seed.len(), thorough);
             let mut seed_total = 0u64;
